@@ -45,8 +45,17 @@ def search(tier, seed):
         total += 1
         if verdict(rows[0][1]) == "INC":
             return total, complete, "corpus case %s is lexically complete but answered Incomplete" % C.show_input(h), samples, len(seen)
-    for stream in ("valid", "follow", "mutate", "garbage"):
-        rows = C.parse_stream(stream, seed, n)
+    sents = C.grammar_sentences()
+    gram = []
+    for h in sents:
+        gram += [h, h + "2a2031204558495354530d0a", h[:-4] + "2078" + h[-4:] if h.endswith("0d0a") else h + "0d0a", h[:-4] + h[-4:] * 2 if h.endswith("0d0a") else h]
+    for stream in ("valid", "follow", "mutate", "garbage", "grammar"):
+        if stream == "grammar":
+            if not gram:
+                continue
+            rows = C.parse_stream("corpus", seed, 0, stdin="\n".join(gram) + "\n")
+        else:
+            rows = C.parse_stream(stream, seed, n)
         for h, impl, _ in rows:
             total += 1
             b = bytes.fromhex(h)
